@@ -19,6 +19,7 @@ import (
 	"github.com/oxia-db/oxia/server/wal"
 
 	"verif/harness/internal/hx"
+	"verif/harness/internal/kvsafe"
 )
 
 type spyFactory struct {
@@ -49,7 +50,7 @@ func wiringScenario(o *hx.Out, r *hx.Rng, id int, leader bool) {
 	}
 	desc := fmt.Sprintf("wiring#%d %s: db commit offset %d, wal with %d entries, payload of committed entry %d damaged", id, role, K, n, j)
 
-	kvf, err := kv.NewPebbleKVFactory(&kv.FactoryOptions{DataDir: filepath.Join(dataDir, "db"), CacheSizeMB: 4})
+	kvf, err := kvsafe.New(&kv.FactoryOptions{DataDir: filepath.Join(dataDir, "db"), CacheSizeMB: 4})
 	hx.Must(err)
 	defer kvf.Close()
 	db, err := kv.NewDB("ns", 1, kvf, time.Hour, ctime.SystemClock)
